@@ -75,10 +75,15 @@ func checkValue(t *typeDesc, v any, r *rand.Rand, count func(string, int64)) (en
 	if wb, err := t.enc(w); err == nil {
 		d := t.newv()
 		if err := t.dec(wb, d); err == nil {
+			if t.derived != nil {
+				_ = t.derived(d) // populate whatever the object caches about its first content
+			}
 			if err := t.dec(b1, d); err != nil {
 				fail("decode into a used target returned error: %v", err)
 			} else if b4, err := t.enc(d); err != nil || !bytes.Equal(b4, b1) || !t.eq(v, d) {
 				fail("decode(encode(x)) into a target that already held another value is not equal to x")
+			} else if t.derived != nil && t.derived(d) != t.derived(y) {
+				fail("value decoded into a target that already held (and had derived state read from) another value reports the derived state of the previous content (e.g. the old chain key)")
 			}
 			count("codec.used_target_decodes", 1)
 		}
